@@ -89,6 +89,25 @@ NOTES.update({
  "C19-4": ("caught", "size ladder n = 12..33 at gap ratio 0.8 added anyway"),
  "C20-4": ("missed at first", "LARGE (n = 17..130) arguments that violate A = A^H in one entry at even / odd / first / last positions, for every Hermitian-only entry point"),
 })
+NOTES.update({
+ "C01-5": ("missed at first", "argument relations: the same object as both factors, transpose / reversed views of one buffer, a result fed back as an operand, on all storage paths, with the caller's own objects"),
+ "C03-5": ("caught", ""),
+ "C05-5": ("missed at first", "truncation rank passed as numpy signed / unsigned integer"),
+ "C06-5": ("caught", ""),
+ "C07-5": ("missed at first (the monitor handed a fresh copy to every call, which hides caches keyed on object identity / buffer address)", "call histories with the caller's own objects: in-place update, transposed / reversed / sub-block views of the previous argument, returned factors overwritten"),
+ "C08-5": ("caught", ""),
+ "C09-5": ("caught", ""),
+ "C10-5": ("caught", ""),
+ "C11-5": ("caught", ""),
+ "C12-5": ("missed at first", "rank / oversampling / iteration counts as numpy integers; the reproducibility call uses plain ints, so the two forms are also compared bitwise"),
+ "C13-5": ("caught", ""),
+ "C14-5": ("missed at first (quat_eye was not in the battery)", "16 more entry points in the battery; every returned array is overwritten by the caller before the call is repeated; views of the previously used buffer"),
+ "C15-5": ("missed at first", "every accepted spelling of ord (np.inf, float('inf'), math.inf, numpy float / int / str scalars, keyword and positional) judged against the oracle norm"),
+ "C17-5": ("missed at first", "integer-weight kernels in integer dtypes, lambda as int / numpy scalars, restoration from the matrices of the application's builders and from an explicit matrix in the kernel's dtype"),
+ "C18-5": ("missed at first", "real_part omitted / positional / Python int / numpy integer / float32; result dtype checked"),
+ "C19-5": ("caught", ""),
+ "C20-5": ("missed at first", "converse table: in-domain option values as numpy integers / floats / strings, keyword instead of positional, lists and numpy-integer tuples for shapes"),
+})
 for d in sorted(glob.glob(os.path.join(HERE, "seeded", "C*"))):
     pid = os.path.basename(d)[:3]
     agent = {}
